@@ -315,7 +315,7 @@ func WeightsFromTags(opts b6.Tags, w b6.World) (graph.Weights, error) {
 func accessibleRoutes(context *api.Context, origin b6.Identifiable, destinations b6.Query, duration float64, options b6.UntypedCollection) (b6.Collection[b6.FeatureID, b6.Route], error) {
 	f := api.Resolve(origin, context.World)
 	if f == nil {
-		return b6.Collection[b6.FeatureID, b6.Route]{}, nil
+		return b6.ArrayCollection[b6.FeatureID, b6.Route]{}.Collection(), nil
 	}
 
 	weights, err := WeightsFromOptions(options, context.World)
